@@ -352,3 +352,66 @@ Section SortFacts.
         * now apply IH.
   Qed.
 End SortFacts.
+
+(* ---------- more relational facts (target-bucket side of a statement) ---------- *)
+Section RelFacts2.
+  Context {R : Type}.
+  Implicit Types (p q g : R -> bool) (f : R -> R) (l : list R).
+
+  Lemma filter_update_where_comm : forall p q f l,
+    (forall r, p (f r) = p r) -> filter p (update_where q f l) = update_where q f (filter p l).
+  Proof.
+    induction l as [|a t IH]; intros H; cbn; [reflexivity|].
+    specialize (IH H). unfold update_where in IH. destruct (q a) eqn:Q.
+    - rewrite H. destruct (p a); cbn; [rewrite Q; f_equal|]; assumption.
+    - destruct (p a); cbn; [rewrite Q; f_equal|]; assumption.
+  Qed.
+
+  Lemma filter_delete_where_comm : forall p q l,
+    filter p (delete_where q l) = delete_where q (filter p l).
+  Proof.
+    unfold delete_where. induction l as [|a t IH]; cbn; [reflexivity|].
+    destruct (q a) eqn:Q; destruct (p a) eqn:P; cbn; rewrite ?Q, ?P; cbn; rewrite ?IH; reflexivity.
+  Qed.
+
+  Lemma update_where_ext_in : forall q q' f l,
+    (forall r, In r l -> q r = q' r) -> update_where q f l = update_where q' f l.
+  Proof.
+    intros q q' f l H. unfold update_where. apply map_ext_in. intros r Ir. now rewrite (H r Ir).
+  Qed.
+
+  Lemma delete_where_ext_in : forall q q' l,
+    (forall r, In r l -> q r = q' r) -> delete_where q l = delete_where q' l.
+  Proof.
+    intros q q' l H. unfold delete_where. apply filter_ext_in. intros r Ir. now rewrite (H r Ir).
+  Qed.
+
+  Lemma filter_andb : forall p g l, filter (fun r => p r && g r) l = filter g (filter p l).
+  Proof.
+    induction l as [|a t IH]; cbn; [reflexivity|].
+    destruct (p a); cbn; [destruct (g a); [f_equal|]|]; assumption.
+  Qed.
+
+  Lemma find_update_where_same : forall p f l,
+    (forall r, p r = true -> p (f r) = true) ->
+    find p (update_where p f l) = option_map f (find p l).
+  Proof.
+    induction l as [|a t IH]; intros H; cbn; [reflexivity|].
+    destruct (p a) eqn:P; [now rewrite (H a P)|]. rewrite P. now apply IH.
+  Qed.
+
+  Lemma In_filter_all : forall p l r, In r (filter p l) -> p r = true.
+  Proof. intros p l r H. now apply filter_In in H. Qed.
+End RelFacts2.
+
+(* an association list is determined by its key order and its lookups *)
+Lemma alist_ext : forall {V} (l l' : list (Z * V)),
+  akeys l = akeys l' -> NoDup (akeys l) -> (forall k, In k (akeys l) -> aget k l = aget k l') -> l = l'.
+Proof.
+  induction l as [|[k v] t IH]; intros [|[k' v'] t'] K N H; try discriminate; [reflexivity|].
+  cbn in K. inversion K; subst. cbn in N. inversion N as [|? ? NI ND]; subst.
+  pose proof (H k' (or_introl eq_refl)) as Hk. cbn in Hk. rewrite Z.eqb_refl in Hk. inversion Hk; subst.
+  f_equal. apply IH; [assumption|assumption|].
+  intros k Ik. specialize (H k (or_intror Ik)). cbn in H.
+  destruct (k' =? k) eqn:E; [|assumption]. exfalso. apply NI. assert (k' = k) by lia. now subst.
+Qed.
